@@ -8,6 +8,7 @@ CONSTANTS
   Strategy = "temp"
   SkipUnreadable = FALSE
   StrictErr = FALSE
+  DirtySession = FALSE
 INIT Init
 NEXT Next
 CHECK_DEADLOCK FALSE
